@@ -150,6 +150,8 @@ BOUNDS = {
 
 
 def replay(native, v):
+    if v['data'].get('op') == 'kani':
+        return kani_replay(v)
     """re-run a counterexample on the natively compiled code and on the concrete spec -> (confirmed, detail)"""
     d = v['data']
     model = d['model']
@@ -190,3 +192,20 @@ def replay(native, v):
             ok_ = out.startswith('OK') and out.split()[-1] == hexs(bytes(want))
         return not ok_, {'first': repr(first), 'line': repr(line), 'native': out, 'spec': repr(want)}
     return False, {'error': 'unknown op'}
+
+
+def extra_engines(tier, seed, args):
+    """engine E1: Kani on the compiled leaf functions (second, independent lowering)"""
+    from lib import kani
+    hs = ['directive_type_table'] if tier == 'quick' else ['directive_type_table', 'detect_from_matches_g1_6', 'stub_find_equiv']
+    if not hs or getattr(args, 'only', None):
+        return {'inconclusive': [], 'violations': [], 'evidence': None}
+    return kani.extra(hs, 300 if tier == 'quick' else 1500, 'DirectiveType::try_from name table on <=8 ASCII bytes; detect_from == G1 on every ASCII line of <=6 bytes')
+
+
+def kani_replay(v):
+    """a failed Kani harness on the compiled code is already a statement about the real code; it is confirmed by
+    re-running the harness once more (deterministic) and reported with the failing checks"""
+    from lib import kani
+    r = kani.run_harness(v['data']['harness'], timeout_s=1500)
+    return r['status'] == 'failed', {'harness': v['data']['harness'], 'failed_checks': r['failed_checks']}
